@@ -33,6 +33,7 @@ func init() {
 	register("C17", true, checkC17)
 	register("C18", true, checkC18)
 	register("C16", true, checkC16)
+	register("C01", true, checkC01)
 }
 
 func main() {
